@@ -231,6 +231,7 @@ func (m *Monitors) relational(o *Op, res string, pre *Pre, s *Snap, bal map[int6
 	m.c07(o, res, f, pre, s, bal, refunds)
 	m.c09(o, res, f, pre, s, plans)
 	m.c10(o, res, f, pre, s)
+	m.c16finished(f, pre, s)
 
 	// forget nothing, but note the requests whose records are all gone
 	for rid, t := range st.reqs {
@@ -1440,6 +1441,28 @@ func (m *Monitors) c10(o *Op, res string, f *stepFacts, pre *Pre, s *Snap) {
 				m.evals["C10"]++
 				m.fail("C10", "%scontext %s removed at the end of its creation block without a first batch", m.tagCtx(id), ctxLine([]byte(id)))
 			}
+		}
+	}
+}
+
+// c16finished: the step-relational half of C16. When the expiry block of a batch ends, a context that
+// has finished (killed; one-shot; repeated with its total reached) is removed together with the batch.
+func (m *Monitors) c16finished(f *stepFacts, pre *Pre, s *Snap) {
+	if !f.isEB {
+		return
+	}
+	for _, e := range pre.snap.ExpQ {
+		if e.H != f.H {
+			continue
+		}
+		x, ok := pre.snap.Ctxs[e.ID]
+		if !ok {
+			continue
+		}
+		finished := x.State == types.COMPLETED || (x.State == types.RUNNING && (!x.Repeated || (x.RepeatedTotal >= 0 && int64(x.BatchCounter) >= x.RepeatedTotal)))
+		if _, still := s.Ctxs[e.ID]; finished && still {
+			m.fail("C16", "%scontext %s (state %v, repeated %v, batch %d of %d) has finished and is still stored after its batch's expiry block %d", m.tagCtx(e.ID),
+				ctxLine([]byte(e.ID)), x.State, x.Repeated, x.BatchCounter, x.RepeatedTotal, f.H)
 		}
 	}
 }
